@@ -10,8 +10,11 @@ Driver for C07 (see harness/src/c07.rs for the request and observation formats).
   property read literally: the files given, ordered by cpio path, each with its exact bytes, its own
   mode, |content| = recorded size, SHA-256 matching the recorded digest (`dg`, computed by the harness).
 * `filesraw <package>` — a hand-assembled foreign package.  Model = `Hdr.parsePackage` + the subset of
-  `get_file_entries` the generator uses + `iterate`.  Spec = pairing BY NAME: every yielded content must
-  be the content of the archive entry that names the path of the metadata it is paired with.
+  `get_file_entries` the generator uses + `iterateE` (metadata = the header file the entry designates,
+  `fileIndex`).  Spec = pairing BY NAME, judged on the implementation's observation with a reading of the
+  archive of its own (`listArchive` + `entryPath`, no `fileIndex`): every yielded content must be the
+  content of an archive entry that names the path of the metadata it is paired with; an archive entry
+  naming no header file must not come out under any metadata (an error item is what is expected).
 -/
 namespace RpmVerif.Driver.C07
 open RpmVerif.Cpio RpmVerif.Driver
@@ -59,8 +62,8 @@ def obsOf (items : List Item) (ar : String) (errAt : Option Nat) : String :=
   let base := items.foldl (fun s i => s ++ " " ++ i.str) base
   match errAt with | some k => base ++ s!" err@{k}" | none => base
 
-/-- split the model's iteration result into the yielded contents and the position of the first error -/
-def splitIter : List (Out Bytes) → List Bytes × Option Nat
+/-- split the model's iteration result into the yielded items and the position of the first error -/
+def splitIter {α} : List (Out α) → List α × Option Nat
   | l =>
     let oks := l.filterMap fun o => match o with | .ok c => some c | _ => none
     (oks, if oks.length < l.length then some oks.length else none)
@@ -151,8 +154,9 @@ def handleFiles (args : List String) (impl : String) : String :=
     let combined := sizes.foldl (· + ·) 0
     let usesLarge := large && combined > 0
     let archive := if usesLarge then builderArchiveLarge fs else builderArchive 0 0 fs
-    let (cs, errAt) := splitIter (iterate archive sizes)
-    let mItems : List Item := (fs.zip cs).map fun (f, c) =>
+    let (cs, errAt) := splitIter (iterate archive (fs.map fun f => headerPath f.path) sizes)
+    -- the metadata of an item is that of the header file the iterator looked up for it
+    let mItems : List Item := cs.filterMap fun (i, c) => (fs[i]?).map fun f =>
       ⟨headerPath f.path, f.content.length, c, f.mode, if c == f.content then "1" else "0"⟩
     let ar := if compOf args == "none" then hex16 (fnv archive) else "-"
     let model := obsOf mItems ar errAt
@@ -179,6 +183,12 @@ def handleFiles (args : List String) (impl : String) : String :=
 
 /-! ## `filesraw` -/
 
+/-- `Path::new(dir).join(base)` on Unix, on the bytes of the two strings -/
+def pathJoin (dir base : Bytes) : Bytes :=
+  if base.head? = some 47 then base
+  else if dir.isEmpty ∨ dir.getLast? = some 47 then dir ++ base
+  else dir ++ [47] ++ base
+
 open RpmVerif.Hdr in
 /-- the subset of `get_file_entries` / `get_file_paths` the foreign generator exercises: first entry
 with the tag, expected data type, `multizip` stops at the shortest array -/
@@ -202,7 +212,7 @@ def fileEntries (h : Hdr.Header) : Option (List (Bytes × Nat × Nat × Bytes)) 
     let bases ← strs RpmVerif.Gen.IndexTag.RPMTAG_BASENAMES
     let dix ← i32s RpmVerif.Gen.IndexTag.RPMTAG_DIRINDEXES
     let dirs ← strs RpmVerif.Gen.IndexTag.RPMTAG_DIRNAMES
-    let paths ← (bases.zip dix).mapM fun (b, d) => (dirs[d]?).map (· ++ b)
+    let paths ← (bases.zip dix).mapM fun (b, d) => (dirs[d]?).map (pathJoin · b)
     let n := [paths.length, users.length, groups.length, modes.length, digests.length, mtimes.length,
               sizes.length, flags.length, links.length].foldl min paths.length
     pure ((List.range n).filterMap fun i => do
@@ -234,19 +244,26 @@ def handleRaw (pkgHex : String) (impl : String) : String :=
       | none => answer "err-files" "dontcare" "foreign-header-rejected"
       | some fes =>
         let sizes := fes.map (·.2.1)
-        let paths := fes.map (46 :: ·.1)          -- cpio paths of the header files
-        let its := iterateE sizes sizes.length p.content
+        let paths := fes.map (·.1)          -- the header's file paths
+        -- model: the iterator as it is (metadata index by `fileIndex`)
+        let its := iterateE paths sizes sizes.length p.content
         let (arch, clean) := listArchive sizes (p.content.length + 1) p.content
-        -- content the package means for a header path: the archive entry that names it
-        let byName (cp : Bytes) : Option Bytes := (arch.find? fun a => entryPath paths a.1 == some cp).map (·.2)
-        let oks := its.filterMap fun o => match o with | .ok x => some x | _ => none
-        let errAt := if oks.length < its.length then some oks.length else none
-        let mItems : List Item := (fes.zip oks).map fun ((path, size, mode, dgst), (_, c)) =>
+        -- the part of the archive the `count` guard lets the iterator reach
+        let reach := arch.take fes.length
+        -- header path an archive entry designates, if it is the path of a header file (spec side)
+        let designated (a : PayloadEntry × Bytes) : Option Bytes := match entryPath paths a.1 with
+          | some hp => if paths.contains hp then some hp else none
+          | none => none
+        -- contents the package means for a header path: those of the archive entries that designate it
+        let byName (hp : Bytes) : List Bytes := (arch.filter fun a => designated a == some hp).map (·.2)
+        let (oks, errAt) := splitIter its
+        let mItems : List Item := oks.filterMap fun (i, _, c) => (fes[i]?).map fun (path, size, mode, dgst) =>
           ⟨path, size, c, mode,
            -- generator contract: the digest is that of the complete content meant for this path
-           if dgst.isEmpty then "n" else if byName (46 :: path) == some c && c.length == size then "1" else "0"⟩
+           if dgst.isEmpty then "n" else if (byName path).head? == some c && c.length == size then "1" else "0"⟩
         let model := obsOf mItems "-" errAt
         -- spec: pairing by name, judged on the implementation's observation
+        let unknownAt := reach.findIdx? fun a => (designated a).isNone
         let verdict := match parseImpl impl with
           | none => "dontcare"
           | some o =>
@@ -256,11 +273,13 @@ def handleRaw (pkgHex : String) (impl : String) : String :=
               | none => some "content"
               | some fe =>
                 let posFnv := (arch[j]?).map fun a => hex16 (fnv a.2)
-                match byName (46 :: fe.1) with
-                | none => some (if posFnv == some i.fnv then "position-pairing" else "content")
-                | some c =>
-                  if hex16 (fnv c) ≠ i.fnv ∨ toString c.length ≠ i.len then
-                    some (if posFnv == some i.fnv then "position-pairing" else if clean then "content" else "short-content")
+                let cands := byName fe.1
+                -- several entries may name the same file: the item must be one of them
+                match cands.find? (fun c => hex16 (fnv c) == i.fnv && toString c.length == i.len) with
+                | none => some (if posFnv == some i.fnv then "position-pairing" else if clean then "content" else "short-content")
+                | some _ =>
+                  -- size and digest are recorded once per file: judged when the archive is unanimous about the content
+                  if cands.eraseDups.length ≠ 1 then none
                   else if i.len ≠ i.size then some (if clean then "size" else "short-content")
                   else if i.dg == "0" then some "digest"
                   else none
@@ -270,23 +289,37 @@ def handleRaw (pkgHex : String) (impl : String) : String :=
               | some c => "fails:" ++ c
               | none =>
                 if !clean then "dontcare"                       -- damaged archive: an error is acceptable
-                else if o.err.isSome then "fails:err"
-                else if o.items.length ≠ min arch.length fes.length then "fails:count"
-                else "holds"
+                else match unknownAt with
+                  | some k =>
+                    -- an entry that names no header file: nothing may come out for it under some file's
+                    -- metadata (judged above); an error is expected, items after it are not demanded
+                    if o.err.isSome ∧ o.items.length ≤ k then "holds"
+                    else if o.items.length > reach.length - 1 then "fails:count"
+                    else "dontcare"
+                  | none =>
+                    if o.err.isSome then "fails:err"
+                    else if o.items.length ≠ min arch.length fes.length then "fails:count"
+                    else "holds"
         let kind := match arch.head? with
           | some (.cpio e, _) => if e.crc then "crc" else "newc"
           | some (.stripped _, _) => "stripped"
           | none => "empty"
-        let idxs := arch.map fun a => entryIndex paths a.1
+        let idxs := arch.map fun a => (designated a).map fun hp => paths.idxOf hp
+        let known := idxs.filterMap id
         let shape :=
           if !clean then "truncated"
-          else if idxs == List.range fes.length then "same-order"
-          else if idxs.length < fes.length && (idxs.zip (idxs.drop 1)).all (fun (a, b) => a < b) then "ghost-omitted"
+          else if unknownAt.isSome then "unknown-name"
+          else if known.eraseDups.length ≠ known.length then "duplicate-name"
+          else if known == List.range fes.length then "same-order"
+          else if known.length < fes.length && (known.zip (known.drop 1)).all (fun (a, b) => a < b) then "ghost-omitted"
           else "reordered"
+        let plain := match arch.head? with
+          | some (.cpio e, _) => if namePath e.name == e.name then "-plain-name" else ""
+          | _ => ""
         let nuls := match arch.head? with
           | some (.cpio e, _) => if (p.content.drop 94).take 8 == fmtHex8 (e.name.length + 1) then "" else "-padded-name"
           | _ => ""
-        answer model verdict s!"foreign-{kind}-{shape}{nuls}"
+        answer model verdict s!"foreign-{kind}-{shape}{plain}{nuls}"
     | _ => answer "err-parse" "dontcare" "foreign-unparsable"
 
 def handle (op : String) (args : List String) (impl : String) : String :=
